@@ -7,6 +7,8 @@ REPO = os.environ.get('HEPH_REPO', '/repo')
 sys.path.insert(0, HERE)
 
 ID = 'C03'
+# modules whose functions must not keep state between calls (pyvc.statecheck.hidden_state_census, syntactic)
+HIDDEN_STATE_MODULES = ['src.transformations.type_erasure', 'src.analysis.type_dependency_analysis', 'src.transformations.base']
 LEVEL = 'proof'
 SIDECARS = ['types_sub', 'types_ctor', 'mutations']
 FUNCTIONS = [
